@@ -19,8 +19,19 @@ type Stats struct {
 }
 
 type fnInfo struct {
-	idx map[ssa.Value]int
-	n   int
+	idx  map[ssa.Value]int
+	n    int
+	code [][]instrInfo // per block, per instruction: operand registers resolved once
+}
+
+type opRef struct {
+	v   ssa.Value
+	idx int
+}
+
+type instrInfo struct {
+	ops []opRef
+	dst int
 }
 
 // fallThrough is returned by an intrinsic that wants the real function body to be interpreted instead.
@@ -57,6 +68,9 @@ type Frame struct {
 	runningDefers bool
 	env           []Value
 	native        func(res Value) // for nested calls from intrinsics
+	cur           []opRef         // operand registers of the instruction being executed
+	curDst        int
+	curIns        ssa.Value
 }
 
 type G struct {
@@ -113,6 +127,7 @@ type Interp struct {
 	Unwind       int
 	StubsHit     map[string]int
 	initMode     bool
+	freeFrames   []*Frame
 	inInitTry    bool
 	ctxs         []*ctxSt
 	exploreOff   bool
@@ -171,6 +186,27 @@ func (in *Interp) info(fn *ssa.Function) *fnInfo {
 		for _, ins := range b.Instrs {
 			if v, ok := ins.(ssa.Value); ok {
 				add(v)
+			}
+		}
+	}
+	fi.code = make([][]instrInfo, len(fn.Blocks))
+	var rands []*ssa.Value
+	for bi, b := range fn.Blocks {
+		fi.code[bi] = make([]instrInfo, len(b.Instrs))
+		for ii, ins := range b.Instrs {
+			ci := &fi.code[bi][ii]
+			ci.dst = -1
+			if v, ok := ins.(ssa.Value); ok {
+				ci.dst = fi.idx[v]
+			}
+			rands = ins.Operands(rands[:0])
+			for _, r := range rands {
+				if r == nil || *r == nil {
+					continue
+				}
+				if i, ok := fi.idx[*r]; ok {
+					ci.ops = append(ci.ops, opRef{*r, i})
+				}
 			}
 		}
 	}
@@ -280,6 +316,12 @@ func (in *Interp) get(fr *Frame, v ssa.Value) Value {
 	case *ssa.Builtin:
 		return Value{K: KFunc, R: v}
 	}
+	// fast path: the value is an operand of the instruction being executed (pointer comparison, no hashing)
+	for k := range fr.cur {
+		if fr.cur[k].v == v {
+			return fr.regs[fr.cur[k].idx]
+		}
+	}
 	i, ok := fr.info.idx[v]
 	if !ok {
 		panic(fmt.Sprintf("no register for %s in %s", v.Name(), fr.Fn))
@@ -287,7 +329,13 @@ func (in *Interp) get(fr *Frame, v ssa.Value) Value {
 	return fr.regs[i]
 }
 
-func (in *Interp) set(fr *Frame, v ssa.Value, x Value) { fr.regs[fr.info.idx[v]] = x }
+func (in *Interp) set(fr *Frame, v ssa.Value, x Value) {
+	if fr.curDst >= 0 && fr.curIns == v {
+		fr.regs[fr.curDst] = x
+		return
+	}
+	fr.regs[fr.info.idx[v]] = x
+}
 
 // ---- frames / calls ----
 
@@ -297,7 +345,24 @@ func (in *Interp) pushFrame(g *G, fn *ssa.Function, args []Value, env []Value, d
 	}
 	in.FuncsEntered[fn]++
 	fi := in.info(fn)
-	fr := &Frame{Fn: fn, info: fi, regs: make([]Value, fi.n), blk: fn.Blocks[0], caller: g.top, dst: dst}
+	var fr *Frame
+	if n := len(in.freeFrames); n > 0 {
+		// recycle a frame (and its register file) that has returned
+		fr = in.freeFrames[n-1]
+		in.freeFrames = in.freeFrames[:n-1]
+		regs := fr.regs
+		*fr = Frame{}
+		if cap(regs) >= fi.n {
+			regs = regs[:fi.n]
+			clear(regs)
+		} else {
+			regs = make([]Value, fi.n)
+		}
+		fr.regs = regs
+		fr.Fn, fr.info, fr.blk, fr.caller, fr.dst = fn, fi, fn.Blocks[0], g.top, dst
+	} else {
+		fr = &Frame{Fn: fn, info: fi, regs: make([]Value, fi.n), blk: fn.Blocks[0], caller: g.top, dst: dst}
+	}
 	for i, p := range fn.Params {
 		fr.regs[fi.idx[p]] = args[i]
 	}
@@ -502,6 +567,9 @@ func (in *Interp) finishReturn(g *G, fr *Frame, res Value) {
 func (in *Interp) step(g *G) {
 	fr := g.top
 	ins := fr.blk.Instrs[fr.pc]
+	ci := &fr.info.code[fr.blk.Index][fr.pc]
+	fr.cur, fr.curDst = ci.ops, ci.dst
+	fr.curIns, _ = ins.(ssa.Value)
 	in.Stats.Instrs++
 	if in.Trace {
 		fmt.Printf("[g%d] %s: %s\n", g.id, fr.Fn.Name(), ins)
@@ -546,6 +614,9 @@ func (in *Interp) step(g *G) {
 			fr.panicking = false
 		}
 		in.finishReturn(g, fr, res)
+		if g.top != fr && len(fr.defers) == 0 && len(in.freeFrames) < 256 {
+			in.freeFrames = append(in.freeFrames, fr) // popped: nothing refers to the frame any more
+		}
 	case *ssa.RunDefers:
 		for len(fr.defers) > 0 {
 			d := fr.defers[len(fr.defers)-1]
